@@ -10,7 +10,9 @@ binding: every grid of the same bounded-exhaustive domains is realised as
          variants, two seed levels) and run through the real
          source_finder.find_islands; seeded random images (noise, blobs of both
          signs, NaN blocks, random bkg/rms maps, random 0 < flood <= seed) run
-         the other way.  TLC (spec/Islands_Trace.tla) computes IslandsOf on the
+         the other way; a third of all calls are repeated in processes that have
+         already completed a full source-finding run (process history must not
+         matter).  TLC (spec/Islands_Trace.tla) computes IslandsOf on the
          class grid and compares pixel sets, boxes, masks.
 """
 import multiprocessing as mp
@@ -27,13 +29,28 @@ def _init():
     common.quiet_logging()
 
 
+def _init_hist():
+    common.quiet_logging()
+    L.history()
+
+
 def _exh(args):
     rid, codes, variant, seed_clip, k = args
+    if rid.endswith("/h"):
+        L.history()
     im, bkg, rms = L.realise(codes, variant)
     o = L.observe(im, bkg, rms, seed_clip, L.FLOOD)
     H, W = len(codes), len(codes[0])
     return {"id": rid, "kind": "detect", "H": H, "W": W, "grid": codes, "k": k, "variant": variant,
             "seed_clip": seed_clip, "err": o["err"], "islands": o["islands"]}
+
+
+def _rand_h(seed):
+    L.history()
+    r = _rand(seed)
+    if r is not None:
+        r["id"] += "/h"
+    return r
 
 
 def _rand(seed):
@@ -52,10 +69,11 @@ def _rand(seed):
 
 
 def key_of(rec, fails):
+    hist = " after-earlier-run" if rec["id"].endswith("/h") else ""
     if rec["id"].startswith("rand/"):
-        return "random-image fails=%s" % ",".join(fails)
+        return "random-image%s fails=%s" % (hist, ",".join(fails))
     zero = bool(rec.get("variant", 0) & 4)
-    return "grid %dx%d zero-valued-members=%s k=%d fails=%s" % (rec["H"], rec["W"], zero, rec["k"], ",".join(fails))
+    return "grid %dx%d%s zero-valued-members=%s k=%d fails=%s" % (rec["H"], rec["W"], hist, zero, rec["k"], ",".join(fails))
 
 
 def selftest(ctx):
@@ -112,6 +130,12 @@ def run(ctx):
         recs = pool.map(_exh, jobs, chunksize=256)
         nrand = 300 if quick else 5000
         rrecs = [r for r in pool.map(_rand, [ctx.seed * 7919 + i for i in range(nrand)], chunksize=16) if r is not None]
+    # the same calls in processes with a history (an earlier complete source-finding run): every third
+    # grid, all structured grids, a third of the random images
+    hjobs = [(j[0] + "/h",) + j[1:] for n, j in enumerate(jobs) if n % 3 == 1 or j[0].startswith("special/")]
+    with mp.Pool(16, initializer=_init_hist) as pool:
+        recs += pool.map(_exh, hjobs, chunksize=256)
+        rrecs += [r for r in pool.map(_rand_h, [ctx.seed * 7919 + i for i in range(0, nrand, 3)], chunksize=16) if r is not None]
     rejected = L.validate_parallel(ctx, recs, "exh")
     rejected += L.validate_parallel(ctx, rrecs, "rand", chunk=400)
     ctx.count(evaluations=len(recs) + len(rrecs), nontrivial=len(recs) + len(rrecs), traces=len(recs) + len(rrecs))
@@ -132,7 +156,7 @@ def replay(ctx, rec):
     r = rec["detail"]["record"]
     _init()
     if r["id"].startswith("rand/"):
-        out = _rand(r["seed"])
+        out = (_rand_h if r["id"].endswith("/h") else _rand)(r["seed"])
     else:
         out = _exh((r["id"], r["grid"], r["variant"], r["seed_clip"], r["k"]))
     for rr, fails in L.validate(ctx, [out], "replay"):
